@@ -4,6 +4,8 @@ package main
 
 import (
 	"fmt"
+	"go/constant"
+	"go/types"
 	"sort"
 	"strings"
 
@@ -96,7 +98,9 @@ func runC18(c *Ctx) {
 			ob := c.Obl("R1", key, "a file that holds persistent state is never created/truncated in place: a crash between the truncation and the rewrite would leave it empty or torn").At(p.InstrPos(cs.Instr))
 			if id == "os.OpenFile" {
 				// append-only log: O_APPEND without O_TRUNC
-				if fl, ok := intConst(args[1]); ok && fl&0x400 != 0 && fl&0x200 == 0 {
+				oApp, ok1 := p.stdConstInt("os", "O_APPEND")
+				oTrunc, ok2 := p.stdConstInt("os", "O_TRUNC")
+				if fl, ok := intConst(args[1]); ok && ok1 && ok2 && fl&oApp != 0 && fl&oTrunc == 0 {
 					ob.Hold("append-only open (flags %#x)", fl)
 					continue
 				}
@@ -403,4 +407,18 @@ func c18WriteBack(c *Ctx, p *Prog) {
 	} else {
 		ob.HoldNT("cert = st.cert.String(), iat-mode = st.iatMode")
 	}
+}
+
+// stdConstInt reads an integer constant of an imported (non-module) package as
+// type-checked for the configuration under analysis (flag values differ per GOOS).
+func (p *Prog) stdConstInt(pkg, name string) (int64, bool) {
+	sp := p.SSA.ImportedPackage(pkg)
+	if sp == nil {
+		return 0, false
+	}
+	cst, ok := sp.Pkg.Scope().Lookup(name).(*types.Const)
+	if !ok {
+		return 0, false
+	}
+	return constant.Int64Val(constant.ToInt(cst.Val()))
 }
